@@ -12,6 +12,7 @@ import (
 	"context"
 	"encoding/json"
 	"fmt"
+	"math"
 	"os"
 	"sort"
 	"testing"
@@ -44,10 +45,10 @@ type c14Case struct {
 	Layout []int    `json:"layout,omitempty"`
 	// Redeliver: every fraction is ingested as two bulks, the second re-sending the first document followed by
 	// the newest and then the remaining ones (the newest new document is not the last one of its bulk)
-	Redeliver bool `json:"redeliver,omitempty"`
-	Form   string   `json:"form,omitempty"`
-	Query  string   `json:"query,omitempty"`
-	Asc    bool     `json:"asc,omitempty"`
+	Redeliver bool   `json:"redeliver,omitempty"`
+	Form      string `json:"form,omitempty"`
+	Query     string `json:"query,omitempty"`
+	Asc       bool   `json:"asc,omitempty"`
 }
 
 func c14Bitmask(r *vlib.Run, c c14Case) {
@@ -155,7 +156,9 @@ func newC14FM(dir string) *FracManager {
 }
 
 func c14Grid(docs []refdb.Doc, infos []*frac.Info) []uint64 {
-	set := map[uint64]bool{0: true, vfrac.MaxMID: true}
+	// "no upper bound" is written as the largest value of the wire type: MaxInt64, and - for the unsigned MID of the
+	// store API (a negative `to` on the wire) - 1<<63 and MaxUint64
+	set := map[uint64]bool{0: true, vfrac.MaxMID: true, math.MaxInt64: true, 1 << 63: true, math.MaxUint64: true}
 	add := func(m uint64) {
 		set[m] = true
 		set[m+1] = true
@@ -367,6 +370,7 @@ func TestVerifC14(t *testing.T) {
 			grid = append(grid, uint64(m))
 		}
 		grid = append(grid, 0, uint64(d.to)+1, uint64(d.from)-1)
+		far := []uint64{math.MaxInt64, 1 << 63, math.MaxUint64} // range ends only ("no upper bound")
 		var subsets [][]uint64
 		for i := range grid {
 			subsets = append(subsets, []uint64{grid[i]})
@@ -379,7 +383,7 @@ func TestVerifC14(t *testing.T) {
 				}
 			}
 		}
-		sg := append([]uint64{}, grid...)
+		sg := append(append([]uint64{}, grid...), far...)
 		sort.Slice(sg, func(i, j int) bool { return sg[i] < sg[j] })
 		for _, mids := range subsets {
 			for i, qf := range sg {
